@@ -196,7 +196,7 @@ Report ==
 
 Next == ParseRequest \/ ParseResponse \/ NegativeFallback \/ PositiveFallback
         \/ RawRequestFallback \/ Matches \/ Report
-Spec == Init /\ [][Next]_vars /\ WF_vars(Next)
+Spec == Init /\ [][Next]_vars
 
 ---------------------------------------------------------------------------
 TypeOK ==
